@@ -34,6 +34,9 @@ KF_F34 = "C01:transform:enum/const/example-literals-rewritten-as-if-they-were-sc
 KF_F35 = "C01:_handle_literal_or_in_quantifier:invalid-quantifier-InternalError-when-minLength>maxLength"
 KF_F36 = "C01:_distribute_length_constraints:zero-remaining-maxLength-treated-as-unbounded"
 KF_F37 = "C01:to_json_schema:readOnly-ignored-when-type-object-is-not-declared"
+KF_F39 = "C01:draw:NUL-character-although-allow_x00-is-off:in-unconstrained-json-value"
+KF_F39B = "C01:draw:string-not-encodable-in-the-configured-codec:in-unconstrained-json-value"
+KF_F40 = "C01:draw:header-or-cookie-value-not-encodable-in-the-configured-codec"
 KF_F38 = "C01:_find_quantified_end:lazy-or-possessive-suffix-cut-off-in-multi-part-pattern"
 KF_F38B = "C01:_find_quantified_end:escaped-quantifier-character-taken-for-a-quantifier-in-multi-part-pattern"
 KF_F38C = "C01:_handle_anchored_pattern:non-capturing-group-text-out-of-step-with-parse-tree"
@@ -596,6 +599,315 @@ def schema_features(s, nn):
     return sorted(f)
 
 
+# ---- mechanism 3: per-location parameter schemas ----------------------------------------------------------------------
+
+LOCATIONS = ("path", "query", "header", "cookie")
+
+
+def load_operation(doc):
+    import schemathesis
+    schema = schemathesis.openapi.from_dict(copy.deepcopy(doc["raw"]))
+    return schema, schema[doc["path"]][doc["method"]]
+
+
+def impl_location(op, loc):
+    from schemathesis.generation import GenerationConfig
+    from schemathesis.specs.openapi._hypothesis import get_schema_for_location, make_positive_strategy
+    from schemathesis.specs.openapi.constants import LOCATION_TO_CONTAINER
+    params = getattr(op, LOCATION_TO_CONTAINER[loc])
+    if not params:
+        return None
+    try:
+        s = get_schema_for_location(op, loc, params)
+        s2 = copy.deepcopy(s)
+        make_positive_strategy(s2, op.label, loc, None, GenerationConfig())
+    except Exception as e:  # noqa: BLE001
+        return {"error": type(e).__name__}
+    plist = list(params)
+    return {"schema": s, "strategy_schema": s2, "supported": list(plist[0].supported_jsonschema_keywords),
+            "nn": plist[0].nullable_field,
+            "params": [{"name": p.name, "required": bool(p.is_required),
+                        "schema": (p.definition.get("schema", {}) if "schema" in p.definition or doc_is_v3(op) else p.definition)}
+                       for p in plist]}
+
+
+def doc_is_v3(op):
+    return op.schema.nullable_name == "nullable"
+
+
+def location_round(chk, drv, docs, mechanism):
+    reqs, cases = [], []
+    for doc in docs:
+        try:
+            _, op = load_operation(doc)
+        except Exception as e:  # noqa: BLE001
+            raise InfraError(f"generated document does not load: {type(e).__name__}: {e}") from e
+        for loc in LOCATIONS:
+            impl = impl_location(op, loc)
+            if impl is None:
+                continue
+            if "error" in impl:
+                chk.case(mechanism, key=[dumps(doc["raw"]), loc], nontrivial=True)
+                chk.feature(f"{mechanism}:impl-error:{impl['error']}")
+                defs = [d for l, d in doc["params"] if l == loc]
+                if impl["error"] == "InternalError":
+                    sig = None
+                    for p, lo, hi in G.pattern_requests(defs):
+                        if isinstance(impl_upd(p, lo, hi), dict):
+                            sig = text_divergence(p) or (KF_F35 if (lo is not None and hi is not None and lo > hi) else None)
+                    chk.violation(sig or "C01:get_schema_for_location:raises-InternalError",
+                                  "the schema for a parameter location cannot be built (InternalError from the pattern rewriter)",
+                                  {"document": doc["raw"], "location": loc})
+                else:
+                    chk.violation(f"C01:get_schema_for_location:raises-{impl['error']}", f"raises {impl['error']}",
+                                  {"document": doc["raw"], "location": loc})
+                continue
+            cfg = cfg_for(chk, impl["params"], impl["nn"])
+            reqs.append(("location", {"cfg": cfg, "location": loc, "params": impl["params"], "supported": impl["supported"],
+                                      "fuel": 2 * py_depth(impl["params"]) + 8}))
+            cases.append((doc, loc, impl))
+    models = drv.batch(reqs)
+    for (doc, loc, impl), m in zip(cases, models):
+        if isinstance(m, dict) and "__err__" in m:
+            raise InfraError(f"location model error {m}")
+        chk.case(mechanism, key=[dumps(impl["params"]), loc], nontrivial=True,
+                 sample={"location": loc, "params": impl["params"], "impl": impl["schema"]})
+        chk.feature(f"{mechanism}:{loc}:{doc['version']}")
+        if dumps(m["schema"]) != dumps(impl["schema"]) or dumps(m["strategy_schema"]) != dumps(impl["strategy_schema"]):
+            chk.disagreement(mechanism, {"location": loc, "params": impl["params"], "supported": impl["supported"]},
+                             canon(m), {"schema": canon(impl["schema"]), "strategy_schema": canon(impl["strategy_schema"])})
+        # replay (structure of the object schema, checked directly against the declarations):
+        names = [p["name"] for p in impl["params"]]
+        props = impl["schema"].get("properties", {})
+        req = set(impl["schema"].get("required", []))
+        want_req = set(names) if loc == "path" else {p["name"] for p in impl["params"] if p["required"]}
+        if set(props) != set(names) or impl["schema"].get("additionalProperties") is not False or req != want_req:
+            chk.violation("C01:parameters_to_json_schema:object-schema-does-not-mirror-the-declared-parameters",
+                          "properties / required / additionalProperties of the location schema differ from the declarations",
+                          {"location": loc, "params": impl["params"], "schema": impl["schema"]})
+
+
+# ---- mechanism 4: real draws from operation.as_strategy(POSITIVE) ----------------------------------------------------------
+
+def coercions(loc, v):
+    """the JSON values a sent parameter value may stand for (string coercion inherent to the location)"""
+    from urllib.parse import unquote_plus
+    out = [v]
+    if isinstance(v, str):
+        if loc == "path":
+            v = unquote_plus(v)
+            out = [v]
+        out += {"true": [True], "false": [False], "null": [None]}.get(v, [])
+        if re.fullmatch(r"-?(0|[1-9][0-9]*)", v):
+            out.append(int(v))
+        elif re.fullmatch(r"-?[0-9]+\.[0-9]+([eE][-+]?[0-9]+)?|-?[0-9]+[eE][-+]?[0-9]+", v):
+            out.append(float(v))
+    return out
+
+
+def governed_strings(schema, value, acc, depth=6):
+    """strings sitting at positions that a `type: string` schema governs (declared properties / items only)"""
+    if not isinstance(schema, dict) or depth <= 0:
+        return acc
+    t = schema.get("type")
+    if isinstance(value, str) and t == "string":
+        acc.append(value)
+    elif isinstance(value, dict) and isinstance(schema.get("properties"), dict):
+        for k, sub in schema["properties"].items():
+            if k in value:
+                governed_strings(sub, value[k], acc, depth - 1)
+    elif isinstance(value, list) and isinstance(schema.get("items"), dict):
+        for x in value:
+            governed_strings(schema["items"], x, acc, depth - 1)
+    return acc
+
+
+def strings_in(x, acc):
+    if isinstance(x, str):
+        acc.append(x)
+    elif isinstance(x, dict):
+        for k, v in x.items():
+            acc.append(k)
+            strings_in(v, acc)
+    elif isinstance(x, (list, tuple)):
+        for v in x:
+            strings_in(v, acc)
+    return acc
+
+
+def param_schema(doc, d):
+    if doc["version"] == "2.0":
+        from schemathesis.specs.openapi.parameters import OpenAPI20Parameter
+        keep = set(OpenAPI20Parameter.supported_jsonschema_keywords) - {"example", "examples"} | {doc["nn"]}
+        return {k: v for k, v in d.items() if k in keep}
+    return d.get("schema", {})
+
+
+def draw_cases(op, gc, n, seed):
+    from hypothesis import HealthCheck, Phase, given, settings
+    from hypothesis import seed as hseed
+    from schemathesis.generation import GenerationMode
+    out = []
+    strat = op.as_strategy(generation_mode=GenerationMode.POSITIVE, generation_config=gc)
+
+    @hseed(seed)
+    @settings(max_examples=n, database=None, deadline=None, phases=[Phase.generate], suppress_health_check=list(HealthCheck))
+    @given(strat)
+    def t(case):
+        out.append(case)
+
+    t()
+    return out
+
+
+def draws_round(chk, drv, docs, n_draws, mechanism="draws"):
+    from schemathesis.core import NOT_SET
+    from schemathesis.generation import GenerationConfig
+    rng = chk.rng
+    lean_reqs, lean_expect = [], []
+
+    def judge(schema, v, nn, root):
+        ok = oas_valid(schema, v, nn, root=root)
+        if on_wire(v) and on_wire(schema) and in_spec(schema) and len(lean_reqs) < 4000:
+            lean_reqs.append(("valid", {"env": S.lean_env(schema, v, oas="request", nullable=nn, root=root), "schema": schema,
+                                        "instance": v, "fuel": 2 * py_depth(schema) + 12}))
+            lean_expect.append((schema, v, ok))
+        return ok
+
+    for i, doc in enumerate(docs):
+        gc = GenerationConfig(allow_x00=rng.random() < 0.5, codec=rng.choice(["utf-8", "utf-8", "ascii"]),
+                              with_security_parameters=rng.random() < 0.5)
+        nn, raw = doc["nn"], doc["raw"]
+        try:
+            _, op = load_operation(doc)
+            cases = draw_cases(op, gc, n_draws, chk.seed * 100003 + i)
+        except Exception as e:  # noqa: BLE001
+            name = type(e).__name__
+            chk.case(mechanism, key=[dumps(raw), "error"], nontrivial=True)
+            chk.feature(f"{mechanism}:no-cases:{name}")
+            if name in ("Unsatisfiable", "FailedHealthCheck", "Flaky", "SkipTest", "InvalidArgument"):
+                continue  # the generator gave up / contradictory schema: counted, not judged (third-party search limits)
+            schemas = [param_schema(doc, d) for _, d in doc["params"]] + ([doc["body"]] if doc["body"] is not None else [])
+            sig = None
+            if name == "TypeError" and any(crash_shape(s) for s in schemas):
+                sig = KF_F33
+            elif name == "InternalError":
+                for p, lo, hi in G.pattern_requests(schemas):
+                    if isinstance(impl_upd(p, lo, hi), dict):
+                        sig = text_divergence(p) or (KF_F35 if (lo is not None and hi is not None and lo > hi) else None)
+            chk.violation(sig or f"C01:as_strategy:raises-{name}", f"no positive case can be generated: {name}: {e}"[:300],
+                          {"document": raw, "generation": {"allow_x00": gc.allow_x00, "codec": gc.codec}})
+            continue
+        chk.feature(f"{mechanism}:operations")
+        for case in cases:
+            parts = {"path": case.path_parameters, "query": case.query, "header": case.headers, "cookie": case.cookies}
+            rep = {"document": raw, "generation": {"allow_x00": gc.allow_x00, "codec": gc.codec}, "seed": chk.seed * 100003 + i,
+                   "case": {k: (v if on_wire(v) else repr(v)) for k, v in parts.items()}}
+            chk.case(mechanism, key=[dumps(raw), repr(parts), repr(case.body)], nontrivial=True,
+                     sample={"parts": {k: repr(v)[:200] for k, v in parts.items()}, "body": repr(case.body)[:300]})
+            for loc in LOCATIONS:
+                vals = parts[loc] or {}
+                decl = {d["name"]: d for l, d in doc["params"] if l == loc}
+                for name, d in decl.items():
+                    if (loc == "path" or d.get("required")) and name not in vals:
+                        chk.violation(f"C01:draw:required-{loc}-parameter-missing", f"required {loc} parameter {name!r} is absent",
+                                      {**rep, "location": loc, "parameter": name})
+                for name, v in vals.items():
+                    if name not in decl:
+                        if loc in ("header", "cookie", "query") and gc.with_security_parameters:
+                            continue
+                        chk.violation(f"C01:draw:undeclared-{loc}-parameter", f"{loc} parameter {name!r} is not declared",
+                                      {**rep, "location": loc, "parameter": name})
+                        continue
+                    sch = param_schema(doc, decl[name])
+                    chk.feature(f"{mechanism}:{loc}-values")
+                    try:
+                        ok = any(judge(sch, c, nn, None) for c in coercions(loc, v))
+                    except Exception:  # noqa: BLE001 - schema the library refuses
+                        chk.feature(f"{mechanism}:oracle-rejects-schema")
+                        continue
+                    if not ok:
+                        sig = None
+                        p, lo, hi = sch.get("pattern"), sch.get("minLength"), sch.get("maxLength")
+                        if isinstance(p, str) and isinstance(impl_upd(p, lo, hi), str) and impl_upd(p, lo, hi) != p:
+                            sig = pattern_signature(p, lo, hi)
+                        chk.violation(sig or f"C01:draw:{loc}-parameter-value-violates-its-schema",
+                                      f"generated {loc} parameter {name!r} = {v!r} does not conform to its declared schema",
+                                      {**rep, "location": loc, "parameter": name, "value": v if on_wire(v) else repr(v), "schema": sch})
+            if doc["body"] is not None:
+                body = case.body
+                required = (doc["raw"]["paths"][doc["path"]]["post"].get("requestBody", {}).get("required", False)
+                            if doc["version"] != "2.0" else
+                            any(p.get("in") == "body" and p.get("required") for p in doc["raw"]["paths"][doc["path"]]["post"]["parameters"]))
+                if body is NOT_SET:
+                    chk.feature(f"{mechanism}:body-absent")
+                    if required:
+                        chk.violation("C01:draw:required-body-missing", "required request body is absent", rep)
+                else:
+                    chk.feature(f"{mechanism}:body-values")
+                    try:
+                        ok = judge(doc["body"], body, nn, raw)
+                    except Exception:  # noqa: BLE001
+                        chk.feature(f"{mechanism}:oracle-rejects-schema")
+                        ok = True
+                    if not ok:
+                        sig, extra = None, {}
+                        if "$ref" not in json.dumps(doc["body"]) and on_wire(body):
+                            r = classify_pattern(doc["body"], nn, body)
+                            if r is None:
+                                repc = drv.one("conv", {"cfg": cfg_for(chk, doc["body"], nn, vForbid="repaired"), "schema": doc["body"],
+                                                        "fuel": 2 * py_depth(doc["body"]) + 8})
+                                r = classify_rest(doc["body"], nn, body, repc)
+                            sig, extra = r
+                            if sig.startswith("C01:to_json_schema:converted-schema-accepts"):
+                                sig = None
+                        chk.violation(sig or "C01:draw:body-violates-its-schema",
+                                      "generated request body does not conform to the declared schema",
+                                      {**rep, "body": body if on_wire(body) else repr(body), "schema": doc["body"], **extra})
+            # configured string restrictions
+            gov, gov_hdr = [], []
+            for loc in LOCATIONS:
+                for name, v in (parts[loc] or {}).items():
+                    d = {dd["name"]: dd for l, dd in doc["params"] if l == loc}.get(name)
+                    if d is not None and isinstance(v, str):
+                        sch = param_schema(doc, d)
+                        if sch.get("type", "string" if loc in ("header", "cookie") else None) == "string":
+                            (gov_hdr if loc in ("header", "cookie") else gov).append(v)
+            if doc["body"] is not None and case.body is not NOT_SET and "$ref" not in json.dumps(doc["body"]):
+                governed_strings(doc["body"], case.body, gov)
+            allstr = strings_in([parts, None if case.body is NOT_SET else case.body], [])
+
+            def bad_codec(t):
+                try:
+                    t.encode(gc.codec)
+                    return False
+                except UnicodeEncodeError:
+                    return True
+
+            if not gc.allow_x00:
+                if any("\x00" in t for t in gov + gov_hdr):
+                    chk.violation("C01:draw:NUL-character-although-allow_x00-is-off", "a generated string value contains \\x00", rep)
+                elif any("\x00" in t for t in allstr):
+                    chk.violation(KF_F39, "a generated string outside any string-typed schema position contains \\x00", rep)
+            if gc.codec:
+                if any(bad_codec(t) for t in gov):
+                    chk.violation("C01:draw:string-not-encodable-in-the-configured-codec",
+                                  f"a generated string value cannot be encoded as {gc.codec}", rep)
+                elif any(bad_codec(t) for t in gov_hdr):
+                    chk.violation(KF_F40, f"a generated header/cookie value cannot be encoded as {gc.codec}", rep)
+                elif any(bad_codec(t) for t in allstr):
+                    chk.violation(KF_F39B, f"a generated string outside any string-typed schema position cannot be encoded as {gc.codec}", rep)
+    outs = drv.batch(lean_reqs)
+    for (schema, v, ok), o in zip(lean_expect, outs):
+        if isinstance(o, dict):
+            raise InfraError(f"spec error {o}")
+        if o != ok:
+            raise InfraError(f"Lean request-side validF != extended jsonschema on a drawn value: schema={json.dumps(schema)} "
+                             f"instance={json.dumps(v)} lean={o} python={ok}")
+    chk.notes.append(f"{mechanism}: {len(lean_reqs)} drawn values judged by the Lean specification and the Python oracle alike; "
+                     "values that cannot travel on the wire (huge/inexact floats, surrogates) by the Python oracle only")
+
+
 def gen_conv_items(chk, n, spice=0.0):
     rng = chk.rng
     items = []
@@ -610,6 +922,23 @@ def gen_conv_items(chk, n, spice=0.0):
             insts += G.instances_for(rng, impl["ok"], "\0none", 3)
         items.append((s, nn, resp, updq, insts))
     return items
+
+
+def _doc30(params, body=None, required=True):
+    path = "/r" + "".join("/{" + d["name"] + "}" for d in params if d["in"] == "path")
+    op = {"parameters": params, "responses": {"200": {"description": "OK"}}}
+    if body is not None:
+        op["requestBody"] = {"required": required, "content": {"application/json": {"schema": body}}}
+    raw = {"openapi": "3.0.2", "info": {"title": "t", "version": "1"}, "paths": {path: {"post": op}}}
+    return {"raw": raw, "path": path, "method": "POST", "params": [(d["in"], d) for d in params], "body": body, "nn": "nullable",
+            "version": "3.0"}
+
+
+DRAW_WITNESSES = [
+    _doc30([{"name": "q", "in": "query", "required": True, "schema": W_F5}]),
+    _doc30([], W_F4),
+    _doc30([{"name": "id", "in": "path", "required": True, "schema": W_F28}]),
+]
 
 
 def run(chk):
@@ -632,6 +961,10 @@ def run(chk):
     conv_round(chk, drv, wit, "witness")
     conv_round(chk, drv, gen_conv_items(chk, chk.budget(1200, 12000)), "conv")
     conv_round(chk, drv, gen_conv_items(chk, chk.budget(150, 1500), spice=0.5), "conv-spiced")
+    docs = [G.gen_document(chk.rng, chk.rng.choice(["3.0", "3.0", "2.0", "3.1"])) for _ in range(chk.budget(150, 1500))]
+    location_round(chk, drv, docs, "location")
+    ddocs = [G.gen_document(chk.rng, chk.rng.choice(["3.0", "3.0", "2.0"]), body_depth=chk.rng.choice([1, 2])) for _ in range(chk.budget(24, 220))]
+    draws_round(chk, drv, DRAW_WITNESSES + ddocs, chk.budget(10, 25))
     regex_round(chk, drv, [("^[0-9]{1,3}?a{1,3}\\+{1,3}?\\Z", 3, 3), ("^\\+?b+(?:ab)\\Z", 2, None), ("^(?:ab)[0-9]+$", None, 4), ("^a[0-9]*$", None, 1), ("^(ab)+$", None, 3),
                            ("[a-z]", None, 3), ("^a$", None, 3), ("[ab]", 3, 1)], "regex-witness")
     ex = exhaustive_regex_cases(chk)
